@@ -12,16 +12,23 @@ from common import *
 RULE = ("cases drawn from one PRNG: lattice shape class (all-2 rank 1-6, mixed sizes 2-4, runs of equal sizes, "
         "rank 8/9 all-2 = matmul path), units 1-3, entry (Lattice layer / lattice_lib functions), input form "
         "(tensor / list of tensors), clip_inputs, extra batch dimension, kernel kind (dyadic/int/wide/tiny/huge, "
-        "monotone by cumulative max along one axis, Edgeworth by double cumulative sum of non-negative "
-        "increments), point kinds (interior, face, vertex, axis-parallel edge, tied fractions, outside, "
+        "monotone by cumulative max along one axis, Edgeworth between two RANDOM distinct axes by double cumulative sum of "
+        "non-negative increments, negated for the 'negative' trust direction), point kinds (interior, face, vertex, axis-parallel edge, tied fractions, outside, "
         "outermost edge, arbitrary doubles, doubles next to integers); BOTH interpolations are evaluated on "
         "every point. One evaluation = one (point, unit, interpolation). Non-trivial = the point is not a "
         "vertex (a genuine interpolation) or lies outside the range; distinct = distinct (shape class, entry, "
         "form, clip, interpolation, point kind, tie pattern of the fractional parts, in-range flag, unit).")
 ASSUMPTIONS = ["float64 layers (dtype='float64'); rounding tolerance 1e-9*scale against the model, 1e-7*scale in the oracle",
-               "inputs with clip_inputs=False outside [0, size-1] are outside the property's scope (no containing "
-               "cell): they are compared with the model (including the InvalidArgument of an out-of-bounds "
-               "gather in the simplex code) but no reference/monotonicity/range clause is evaluated on them",
+               "EXPLICIT EXCLUSION, class `outside:clip_off_out_of_range`: inputs with clip_inputs=False and a coordinate "
+               "outside [0, size-1] are outside property C02 (it interpolates 'the cell containing the point, with "
+               "out-of-range coordinates clipped onto the lattice when clip_inputs is on' and bounds 'in-range or clipped "
+               "inputs'; an unclipped out-of-range point has no containing cell). They ARE generated (~8% of the "
+               "evaluations) and compared with the model (including the InvalidArgument of an out-of-bounds gather "
+               "in the simplex code); the reference / vertex / range / monotonicity / Edgeworth / convex-weights / "
+               "schemes-agree clauses are evaluated on EVERY in-range or clipped point and on no other "
+               "(counters `scope:*`, `clause:*`; `outside:…:would-violate-*` counts how often the excluded points "
+               "actually break a clause: the exclusion is necessary, Props/C02Outside.lean). Groups (monotone pairs, "
+               "Edgeworth quads) with at least one excluded member are counted as `outside:…:group-*`",
                "|inputs| < 2^20 (tf.cast(float64 -> int32) is only defined inside the int32 range)"]
 
 KERNEL_KINDS = ["dyadic", "dyadic", "int", "int", "wide", "tiny", "huge", "mono", "mono", "mono", "edge"]
@@ -142,7 +149,8 @@ def gen_kernel(rng, sizes, units):
       K[:, u] = a.reshape(-1)
   elif kind == "edge":
     m, c = rng.sample(range(len(sizes)), 2)
-    aux = (m, c)
+    sign = -1 if rng.random() < 0.35 else 1          # -1: the trust direction "negative" (kernel negated)
+    aux = (m, c, sign)
     for u in range(units):
       a = K[:, u].reshape(sizes)
       inc = np.vectorize(lambda v: abs(v), otypes=[object])(a)
@@ -150,7 +158,7 @@ def gen_kernel(rng, sizes, units):
       # + arbitrary functions of (m, rest) and of (c, rest): do not change mixed differences
       am = np.take(a, [0], axis=c)
       ac = np.take(a, [0], axis=m)
-      K[:, u] = (inc + am + ac).reshape(-1)
+      K[:, u] = (sign * (inc + am + ac)).reshape(-1)
   return kind, aux, K
 
 
@@ -295,7 +303,7 @@ def gen_case(ctx, big=False):
       pts.append((kind, ("mono", g, 1), b))
       g += 1
     elif kkind == "edge" and len(pts) + 4 <= P and rng.random() < 0.8:
-      m, c = aux
+      m, c = aux[0], aux[1]
       quad = [[], [], [], []]
       for u in range(units):
         x = gen_point(rng, sizes, kind)
@@ -381,6 +389,9 @@ def check_case(ctx, case, real_pack, replies):
         m = replies[pos]
         pos += 1
         ctx.count("point:%s:%s" % (p["kind"], "in" if inr else ("clipped" if clip else "outside-unclipped")))
+        ctx.count("scope:" + ("in_range" if inr else ("clipped" if clip else "outside:clip_off_out_of_range")))
+        if not defined:
+          ctx.count("outside:clip_off_out_of_range")
         sig = (ccls, interp, p["kind"], tie_pattern(sizes, xc), inr, u)
         nontrivial = any(v.denominator != 1 for v in xc) or not inr
         ctx.case(sig=sig, nontrivial=nontrivial,
@@ -395,11 +406,19 @@ def check_case(ctx, case, real_pack, replies):
             ctx.disagree(suite, sub, r, m, "error class differs")
           if isinstance(r, str) and defined:
             ctx.fail("raises", dict(key, interp=interp), sub, r, "in-range/clipped input raises")
+          if isinstance(r, str) and not defined:
+            ctx.count("outside:clip_off_out_of_range:raises:" + r.replace(" ", "_"))
           continue
         ctx.compare(suite, sub, [r], [Fraction(m)], scale, rtol=1e-9)
         vals[(pi, u, interp)] = float(r)
         if not defined:
+          # outside the property: model == real was compared above; record (informative) that the excluded
+          # point does break the clauses, i.e. that the exclusion is not vacuous
+          lo, hi = float(min(Knd[u].reshape(-1))), float(max(Knd[u].reshape(-1)))
+          if float(r) < lo - 1e-7 * kscale or float(r) > hi + 1e-7 * kscale:
+            ctx.count("outside:clip_off_out_of_range:would-violate-range")
           continue
+        ctx.count("clause:evaluated:" + interp)
         k2 = dict(key, interp=interp, point=p["kind"])
         tol = 1e-7 * kscale
         if not math.isfinite(float(r)):
@@ -437,10 +456,26 @@ def check_case(ctx, case, real_pack, replies):
       for v in x0:
         sc *= 1.0 + abs(float(v))
     ctx.compare("lattice.compute_interpolation_weights", dict(case, pts=case["pts"][:1]), wreal, parse_rats(m), sc)
+    if not (clip or in_range(sizes, x0)):
+      ctx.count("outside:clip_off_out_of_range:weights")
+      if float(np.min(wreal)) < -1e-9 or abs(float(np.sum(wreal)) - 1.0) > 1e-9:
+        ctx.count("outside:clip_off_out_of_range:would-violate-convex-weights")
     if clip or in_range(sizes, x0):
+      ctx.count("clause:evaluated:convex-weights")
       if float(np.min(wreal)) < -1e-9 or abs(float(np.sum(wreal)) - 1.0) > 1e-9:
         ctx.fail("convex-weights", key, dict(case, pts=case["pts"][:1]), wreal,
                  "weights must be >= 0 and sum to 1 (min %r, sum %r)" % (float(np.min(wreal)), float(np.sum(wreal))))
+      # "a convex combination of the CELL's corner values": no weight outside the 2^rank corners of the cell that
+      # contains the (clipped) point (C02_T2_weights_vanish_off_cell)
+      xc0 = clip_pt(sizes, x0) if clip else x0
+      lower = [min(int(math.floor(v)), n - 2) for v, n in zip(xc0, sizes)]
+      wnd = np.array(wreal, dtype=np.float64).reshape(sizes).copy()
+      wnd[tuple(slice(l, l + 2) for l in lower)] = 0.0
+      ctx.count("clause:evaluated:cell-support")
+      if float(np.max(np.abs(wnd))) > 1e-12:
+        ctx.fail("cell-support", key, dict(case, pts=case["pts"][:1]), wreal,
+                 "a vertex that is not a corner of the cell with lower corner %r carries weight %g" % (
+                     lower, float(np.max(np.abs(wnd)))))
   # grouped clauses: monotone pairs, Edgeworth quads
   groups = {}
   for pi, p in enumerate(case["pts"]):
@@ -450,11 +485,21 @@ def check_case(ctx, case, real_pack, replies):
     for u in range(units):
       xs = [case["pts"][members[q]]["x"][u] for q in sorted(members)]
       if not all(clip or in_range(sizes, x) for x in xs):
-        ctx.count("group-skipped-outside-unclipped")
+        # outside the property (a member is unclipped and out of range); informative: does it break the clause?
+        ctx.count("outside:clip_off_out_of_range:group-" + gk)
+        if gk == "mono":
+          for interp in ("hypercube", "simplex"):
+            v = [vals.get((members[q], u, interp)) for q in sorted(members)]
+            if all(t is not None for t in v) and v[0] > v[1] + 1e-7 * kscale:
+              ctx.count("outside:clip_off_out_of_range:would-violate-monotonicity:" + interp)
         continue
+      ctx.count("clause:group-evaluated:" + gk)
       for interp in ("hypercube", "simplex"):
         v = [vals.get((members[q], u, interp)) for q in sorted(members)]
         if any(t is None for t in v):
+          # every member is in range or clipped, so a missing value is a raise / model error already
+          # reported as `raises` / disagreement above; never silent
+          ctx.count("clause:group-missing-value")
           continue
         tol = 1e-7 * kscale
         sub = dict(case, pts=[case["pts"][members[q]] for q in sorted(members)], focus=dict(interp=interp, unit=u))
@@ -465,12 +510,15 @@ def check_case(ctx, case, real_pack, replies):
                      "kernel non-decreasing along axis %d, x_d %s < %s but output decreases by %g" % (
                          case["aux"], fr(xs[0][case["aux"]]), fr(xs[1][case["aux"]]), v[0] - v[1]))
         elif gk == "edge" and interp == "hypercube":
-          ctx.count("edgeworth-quad")
-          # points: (m,c), (m',c), (m,c'), (m',c')
-          if (v[3] - v[2]) < (v[1] - v[0]) - 4 * tol:
+          sign = case["aux"][2] if len(case["aux"]) > 2 else 1
+          ctx.count("edgeworth-quad:" + ("positive" if sign > 0 else "negative"))
+          ctx.count("edgeworth-axes:" + ("leading(0,1)" if tuple(case["aux"][:2]) == (0, 1) else "other"))
+          # points: (m,c), (m',c), (m,c'), (m',c'); direction "negative": the effect must not INCREASE
+          if sign * ((v[3] - v[2]) - (v[1] - v[0])) < -4 * tol:
             ctx.fail("edgeworth", dict(key, interp=interp), sub, v,
-                     "effect of the main feature decreases in the conditional feature by %g" % (
-                         (v[1] - v[0]) - (v[3] - v[2])))
+                     "effect of the main feature %s in the conditional feature by %g (trust direction %s)" % (
+                         "decreases" if sign > 0 else "increases", abs((v[1] - v[0]) - (v[3] - v[2])),
+                         "positive" if sign > 0 else "negative"))
   return pos
 
 
